@@ -57,11 +57,34 @@ def normalize(c, obs):
     return dict(c, ops=ops2), dict(obs, steps=steps2), dropped
 
 
+def stale_own_after_base_add(c, obs):
+    """the one-entry resolution cache of a shared AST node (node/vm_cache.go): TempVM v ran `new N` of a base function
+    body while only v defined N; the BASE then defines N (base definitions take precedence in GetClass); the same node
+    run on v again still instantiates v's own N"""
+    steps = obs.get("steps") or []
+    ops = c["ops"]
+    if len(steps) != len(ops) + 1:
+        return False
+    for i, a in enumerate(ops):
+        if a["op"] != "callfn" or a["vm"] < 0 or steps[i + 1]["d"] < 0:
+            continue
+        based = False
+        for k in range(i + 1, len(ops)):
+            b = ops[k]
+            if b["op"] == "discard" and b.get("t") == a["vm"]:
+                break
+            if b["op"] == "add" and b["vm"] == -1 and b.get("kind") == "c" and b["name"] == a["name"] and steps[k + 1]["r"] == 0:
+                based = True
+            if based and b["op"] == "callfn" and b["vm"] == a["vm"] and b["name"] == a["name"] and steps[k + 1]["d"] == steps[i + 1]["d"]:
+                return True
+    return False
+
+
 def scoped_to(t, o):
     k = o["op"]
     if k in ("retemp", "prepare"):
         return o["t"] == t
-    if k in ("add", "goc", "goi", "pkg", "cexists", "iexists", "new", "newshort"):
+    if k in ("add", "goc", "goi", "pkg", "cexists", "iexists", "new", "newshort", "callfn", "newchild"):
         return o["vm"] == t
     return False
 
@@ -109,6 +132,10 @@ def coq_op(o):
         return "OPrepare %d" % o["t"]
     if k == "add":
         return "OAdd %s %s %s %d" % (coq_vm(o["vm"]), {"c": "KC", "i": "KI", "f": "KF"}[o["kind"]], coq_string(o["name"]), o["file"])
+    if k in ("callfn", "newchild"):
+        # code defined on the base (a function body doing `new N`, a class extending N) run on the VM: N is resolved
+        # through GetOrLoadClass of the VM it runs on, every time
+        return "OGetOrLoadClass %s %s" % (coq_vm(o["vm"]), coq_string(o["name"]))
     if k in ("goc", "cexists", "new"):
         # script-level class_exists(N) and `new N` resolve through GetClass/GetOrLoadClass of the context's VM
         return "OGetOrLoadClass %s %s" % (coq_vm(o["vm"]), coq_string(o["name"]))
@@ -169,9 +196,14 @@ def run_impl(binary, cases):
     return vworker.run_worker([binary], cases, per_case_timeout=60), 0, ""
 
 
-def mk(ops, names=LOOK, consts=CONSTS):
+def mk(ops, names=LOOK, consts=CONSTS, shared=None, gc=False):
     c = {"names": names, "consts": consts, "cp": CP, "ops": ops}
-    if any(o["op"] in ("cexists", "iexists", "new", "newshort") or o.get("route") == "eval" for o in ops):
+    if shared:
+        c["shared"] = shared
+        c["scripts"] = True
+    if gc:
+        c["gc"] = True
+    if any(o["op"] in ("cexists", "iexists", "new", "newshort", "callfn", "newchild") or o.get("route") == "eval" for o in ops):
         c["scripts"] = True
     return c
 
@@ -404,10 +436,77 @@ def main(ck):
                         {"op": "newshort", "vm": -1, "ns": "App", "name": "Widget"},
                         {"op": "req_begin"}, {"op": "newshort", "vm": 1, "ns": "App", "name": "Widget"}, {"op": "req_end"}]
                 cases.append((mk(fresh(ops), names=NSNAMES, consts=["K"]), 0))
+        # code defined on the BASE whose class names resolve per request VM (seeded changes C12-7: resolution cache of
+        # an AST node keyed by the VM's address; C12-8: a base class caching the parent it resolved first): the base has
+        # function c12new_Theme() { new Theme() ... } and class c12child_Theme extends Theme; Theme is defined (or not)
+        # per TempVM with a marker telling the definitions apart; `callfn` / `newchild` run the shared code on a VM
+        SHNAMES = ["Theme", "Tint", "A"]
+
+        def sh_alpha(vms):
+            a = []
+            for v in [-1] + list(vms):
+                for n in ("Theme", "Tint"):
+                    a += [{"op": "callfn", "vm": v, "name": n}, {"op": "newchild", "vm": v, "name": n}]
+                a += [{"op": "add", "vm": v, "kind": "c", "name": "Theme", "file": 0, "route": rng.choice(["parse", "parsefile", "include", "cond"])},
+                      {"op": "add", "vm": v, "kind": "c", "name": "Tint", "file": 0, "route": "parse"}]
+            for v in vms:
+                a += [{"op": "add", "vm": v, "kind": "c", "name": "Theme", "file": 0, "route": "parse"}]
+            return a
+        # the collision sequence on every ordered pair of VMs: define on x, use on x, define on y, use on y, use on x again
+        for x in (-1, 0, 1, 2):
+            for y in (-1, 0, 1, 2):
+                if x == y:
+                    continue
+                for use in ("callfn", "newchild"):
+                    for ydef in (True, False):
+                        ops = pre + [{"op": "newtemp"}, {"op": "add", "vm": x, "kind": "c", "name": "Theme", "file": 0, "route": "parse"}, {"op": use, "vm": x, "name": "Theme"}] + \
+                              ([{"op": "add", "vm": y, "kind": "c", "name": "Theme", "file": 0, "route": "parse"}] if ydef else []) + \
+                              [{"op": use, "vm": y, "name": "Theme"}, {"op": use, "vm": x, "name": "Theme"}, {"op": "newchild" if use == "callfn" else "callfn", "vm": y, "name": "Theme"}]
+                        ops = fresh(ops)
+                        t = x if x >= 0 else y
+                        cases.append((mk(ops, names=SHNAMES, consts=["K"], shared=["Theme", "Tint"]), t if t >= 0 and any(scoped_to(t, o) for o in ops) else None))
+        for _ in range(400 if ck.tier == "quick" else 5000):
+            al = sh_alpha((0, 1, 2))
+            ops = pre + [{"op": "newtemp"}] + [rng.choice(al) for _ in range(rng.randint(3, 10))]
+            if rng.random() < 0.3:
+                k = rng.randrange(3, len(ops))
+                ops[k:k] = [{"op": "discard", "t": rng.randrange(3)}, {"op": "newtemp"}, {"op": rng.choice(["callfn", "newchild"]), "vm": 3, "name": "Theme"}]
+            ops = fresh(ops)
+            t = rng.choice([0, 1, 2])
+            cases.append((mk(ops, names=SHNAMES, consts=["K"], shared=["Theme", "Tint"]), t if any(scoped_to(t, o) for o in ops) else None))
+        # a request's VM is discarded and COLLECTED, later VMs may be allocated at its address: the shared code runs on a
+        # batch of fresh TempVMs afterwards (the engine calls runtime.GC() after a discard when "gc" is set)
+        for use in ("callfn", "newchild"):
+            for owndef in (0, 1, 2):
+                for rounds in (1, 2):
+                    ops = []
+                    nt = 0
+                    for rd in range(rounds):
+                        a = nt
+                        ops += [{"op": "newtemp"}, {"op": "add", "vm": a, "kind": "c", "name": "Theme", "file": 0, "route": "parse"},
+                                {"op": use, "vm": a, "name": "Theme"}, {"op": "discard", "t": a}]
+                        nt += 1
+                        batch = list(range(nt, nt + 12))
+                        ops += [{"op": "newtemp"} for _ in batch]
+                        nt += 12
+                        for j, b in enumerate(batch):
+                            if owndef == 1 and j % 3 == 0 or owndef == 2:
+                                ops.append({"op": "add", "vm": b, "kind": "c", "name": "Theme", "file": 0, "route": "parse"})
+                            ops.append({"op": use, "vm": b, "name": "Theme"})
+                        ops += [{"op": "discard", "t": b} for b in batch]
+                    cases.append((mk(fresh(ops), names=["Theme"], consts=["K"], shared=["Theme"], gc=True), None))
+        # the same through requests served by the real HotHandler: every request defines its own Theme and runs the shared code
+        for use in ("callfn", "newchild"):
+            for nreq in (2, 3, 6):
+                ops = []
+                for t in range(nreq):
+                    ops += [{"op": "req_begin"}] + ([{"op": "add", "vm": t, "kind": "c", "name": "Theme", "file": 0, "route": "parse"}] if t != 1 else []) + \
+                           [{"op": use, "vm": t, "name": "Theme"}, {"op": "req_end"}]
+                cases.append((mk(fresh(ops), names=SHNAMES, consts=["K"], shared=["Theme", "Tint"], gc=True), 0))
         nrand = 400 if ck.tier == "quick" else 12000
         for _ in range(nrand):
             c = rand_case(rng, 40)
-            ts = sorted(set(o["vm"] for o in c["ops"] if o["op"] in ("add", "goc", "goi", "pkg", "cexists", "iexists", "new", "newshort") and o["vm"] >= 0))
+            ts = sorted(set(o["vm"] for o in c["ops"] if o["op"] in ("add", "goc", "goi", "pkg", "cexists", "iexists", "new", "newshort", "callfn", "newchild") and o["vm"] >= 0))
             cases.append((c, rng.choice(ts) if ts else None))
 
     # run every history, and for the chosen t the purged history, on the implementation
@@ -470,7 +569,10 @@ def main(ck):
         o = obs_of(c)
         kinds = sorted(set(x["op"] for x in c["ops"] if t is not None and scoped_to(t, x)))
         key = "c12:clauses=%s:scoped=%s" % ("".join(map(str, cls)), "+".join(kinds))
-        if not (set(cls) & {3, 4, 5, 6}):
+        stale = cls == [1] and stale_own_after_base_add(c, o)
+        if stale:
+            key = "c12:shared-ast:own-definition-kept-after-base-add"
+        if not (set(cls) & {3, 4, 5, 6}) and not stale:
             ck.broken.append("correspondence:C12.ops")
         rep = {"case": c, "purge_t": t, "impl_out": o, "clause": [names[x] for x in cls]}
         if t is not None:
@@ -524,7 +626,7 @@ def main(ck):
         b = min(len(ops) // 5 * 5, 40)
         lens[str(b)] = lens.get(str(b), 0) + 1
         # non-trivial: some TempVM operation and some operation on a different VM
-        tv = set(o["vm"] for o in ops if o["op"] in ("add", "goc", "goi", "pkg", "cexists", "iexists", "new", "newshort"))
+        tv = set(o["vm"] for o in ops if o["op"] in ("add", "goc", "goi", "pkg", "cexists", "iexists", "new", "newshort", "callfn", "newchild"))
         if len(tv) >= 2 and any(v >= 0 for v in tv):
             nontriv += 1
     res = {}
